@@ -44,6 +44,7 @@ Statements, in continuation-passing style (the code after an `if` / `try` is tra
                                        (BODY' returns the locals BODY assigns; `return` inside BODY: inl/inr; F is translated
                                        once per path; a bare `raise` in H is F; raise e)
   raise RuntimeError(<literal>) / TypeError(<literal>) / raise      table RUNTIME / XType / raise e
+  e.__class__.__name__ only of an exception caught as OSError (the model names the classes of OSError only)
 Recursion: in a group of mutually recursive methods the ones whose recursive calls all sit in a loop over
 `<record parameter>.suboperations` are generated open (`_open`, abstracted over the others), the others become one
 mutual Fixpoint structural on their record parameter, then the open ones are closed.
@@ -715,8 +716,9 @@ class MethodTr:
         if (isinstance(e.value, ast.Attribute) and e.attr == "__name__" and e.value.attr == "__class__"
                 and isinstance(e.value.value, ast.Name)):
             x = self.expr(e.value.value, env)
-            if x.kind != "exc":
-                self.fail("__class__.__name__ of something other than a caught exception", e)
+            if x.kind != "exc" or x.cls != "os":
+                # the model only has names for the classes of OSError (errclass)
+                self.fail("__class__.__name__ of something other than an exception caught as OSError", e)
             return T("(exn_os_class %s)" % x.txt, "errname")
         if self_attr(e):
             self.fail("the attribute self.%s used as a value" % e.attr, e)
@@ -1609,7 +1611,8 @@ class MethodTr:
                     tests.append(EXC_TEST[cl.id])
                 env_h = dict(env)
                 if h.name:
-                    env_h[h.name] = T(e, "exc")
+                    os_only = all(cl.id != "Exception" and cl.id != "TypeError" for cl in clss)
+                    env_h[h.name] = T(e, "exc", cls="os" if os_only else None)
                 # `after` runs outside the handler: the finally of this try is not pending any more
                 after_ctx = (lambda env2: self._outside(saved, lambda: fin_then(env2, k)))
                 btxt = self.block(h.body, env_h, after_ctx)
